@@ -1383,7 +1383,7 @@ def process_program(acc, seed, idx, thorough):
         if "equal" in ans and ans["equal"] and ans["stable"]:
             # the layer statements of the Lean development (tokens derive / lexing the generated text / rebuilding the
             # S-expression), evaluated inside the model: all hold whenever the real code round-trips
-            ask("round_trip_layers", {"text": text, "natives": natives}, case, {"printable": True, "A": True, "B": True, "C": True})
+            ask("round_trip_layers", {"text": text, "natives": natives}, case, {"printable": True, "A": True, "B": True, "C": True, "Cexact": True})
         names = PASSES if thorough or idx % 2 == 0 else rng.sample(PASSES, 3)
         shadow = any(k.startswith("param_shadows") for k in p.feat)
         acc.dist["semantically_illegal_nesting_accepted_by_builder"] += 1 if illegal_nesting(c) else 0
